@@ -7,6 +7,7 @@ mod framework;
 mod mpcrun;
 mod mutate;
 mod schema;
+mod selftest;
 mod sim;
 
 use framework::Tier;
@@ -54,6 +55,13 @@ fn main() {
             }
             let Some(c) = checks::by_id(&a[2]) else { usage() };
             std::process::exit(framework::replay_main(c.as_ref(), &a[3]));
+        }
+        "selftest-determinism" => {
+            let n = a.get(2).and_then(|s| s.parse().ok()).unwrap_or(200);
+            std::process::exit(selftest::main(n));
+        }
+        "selftest-child" => {
+            selftest::child(a[2].parse().unwrap(), a[3].parse().unwrap(), a[4].parse().unwrap());
         }
         _ => usage(),
     }
